@@ -133,10 +133,14 @@ def validate(prop, root):
         print('[%s]   skipped %s: %s' % (prop, r[0], r[2]))
     for r in bad:
         print('[%s]   %s %s %r' % (prop, r[1], r[0], r[3]))
+    summary = {'variants': len(results), 'killed': sum(r[1] == 'killed' for r in results),
+               'benign_silent': sum(r[1] == 'silent' for r in results), 'skipped_anchor_absent': [r[0] for r in skipped],
+               'wrong': [(r[0], r[1]) for r in bad],
+               'samples': [{'id': r[0], 'verdict': r[1], 'findings': [s for _, _, _, ss in r[3] for s in ss][:3]} for r in results[:12]]}
     if bad:
         print('ANALYSIS-ERROR property=%s the checker failed its self-validation (see above)' % prop)
-        return 2
-    return 0
+        return 2, summary
+    return 0, summary
 
 
 def main():
